@@ -281,6 +281,10 @@ def gen_cases(kind, seed, n):
     def scaled(c, wmode):
         if wmode == "real" and r2.below(100) < 30:
             c["wscale"] = r2.pick([-60, -3, -1, -1, 40])
+        if kind in ("c09", "c15") and r2.below(100) < 20:
+            # the same edge VALUE several times in one batch: the harness hands equal edges of a batch over as clones
+            # of one Arc (hist::share_equal), so the library sees the same allocation more than once
+            c["ops"] = dup_in_batches(r2, c["ops"])
         return c
     cases = []
     for i in range(n):
@@ -309,7 +313,7 @@ def gen_cases(kind, seed, n):
             for _ in range(2):
                 a, b = r2.pick(pairs)
                 ops.append(("add_edge", ((b, a) if r2.below(2) else (a, b)) + (1 + r2.below(3), None)))
-            ops += [("q", "alg_sssp", [x, 1, k % 3]) for k, x in enumerate(big[:3])] + [("q", "alg_cc", [1]), ("q", "alg_bc", [1])]
+            ops += [("q", "alg_sssp", [x, 1, k % 5]) for k, x in enumerate(big[:3])] + [("q", "alg_cc", [1]), ("q", "alg_bc", [1])]
             cases.append({"id": "h%d" % i, "spec": sp, "snap_each": True, "ops": ops, "wmode": wmode})
         elif kind == "c03" and i % 25 == 7:
             # weights that SUM to the number of edges without being 1 (halves of 1,1,3,3 through the dyadic scale)
@@ -317,7 +321,7 @@ def gen_cases(kind, seed, n):
             a, b, c_, d = names[:4]
             es = r2.shuffle([(a, b, 1, None), (b, c_, 1, None), (a, c_, 3, None), (c_, d, 3, None)])
             ops = [("add_nodes", [(x, None) for x in r2.shuffle([a, b, c_, d])]), ("add_edges", es)]
-            ops += [("q", "alg_sssp", [x, 1, k % 3]) for k, x in enumerate((a, b, c_, d))] + [("q", "alg_cc", [1]), ("q", "alg_bc", [1])]
+            ops += [("q", "alg_sssp", [x, 1, k % 5]) for k, x in enumerate((a, b, c_, d))] + [("q", "alg_cc", [1]), ("q", "alg_bc", [1])]
             cases.append({"id": "h%d" % i, "spec": sp, "snap_each": True, "ops": ops, "wmode": "real", "wscale": -1})
         elif kind == "c03":
             wmode = "nan" if r.below(4) == 0 else "real"
@@ -327,7 +331,7 @@ def gen_cases(kind, seed, n):
             # the consequence clause: what the algorithms report for the graph this history produced
             wf = 1 if wmode in ("real", "zero") else 0
             ops = ops + [("q", "alg_nbrs", [x]) for x in names]
-            ops = ops + [("q", "alg_sssp", [x, wf, k % 3]) for k, x in enumerate(names)]
+            ops = ops + [("q", "alg_sssp", [x, wf, (k + i) % 5]) for k, x in enumerate(names)]
             if wmode != "zero":     # closeness / betweenness are defined for positive weights
                 ops += [("q", "alg_cc", [wf]), ("q", "alg_bc", [wf])]
             cases.append(scaled({"id": "h%d" % i, "spec": sp, "snap_each": True, "ops": ops, "wmode": wmode}, wmode))
@@ -349,6 +353,25 @@ def gen_cases(kind, seed, n):
             cases.append(scaled({"id": "h%d" % i, "spec": sp, "snap_each": False,
                                  "ops": ops + [("snap",)] + derived_battery(r, names)}, wmode))
     return cases
+
+
+def dup_in_batches(r2, ops):
+    out = []
+    for op in ops:
+        if op[0] == "add_edges" and op[1]:
+            es = list(op[1])
+            e = r2.pick(es)
+            for _ in range(1 + r2.below(3)):
+                es.insert(r2.below(len(es) + 1), e)
+            out.append((op[0], es))
+        elif op[0] == "new_from" and op[1][1]:
+            es = list(op[1][1])
+            e = r2.pick(es)
+            es.insert(r2.below(len(es) + 1), e)
+            out.append((op[0], (op[1][0], es)))
+        else:
+            out.append(op)
+    return out
 
 
 def resign(r2, ops):
